@@ -476,4 +476,67 @@ def runTrace : Node → List NEv → List (Node × NEv × Node × Outp)
   | _, [] => []
   | n, e :: rest => let r := stepNode n e; (n, e, r.1, r.2) :: runTrace r.1 rest
 
+
+/-! ### the handler's reused decode scratch (`LightHouseHandler.meta`, `resetMeta`, generated `Unmarshal`) -/
+
+/-- What the generated gogo-protobuf `Unmarshal` does with the bytes of a packet: the fields it decodes —
+all of them, or those before the position where decoding fails — are MERGED into the receiver, and `ok` tells
+whether it returned nil. `typ = none` / `details = none`: the field is not on the wire (before the error). -/
+structure Packet where
+  typ : Option Nat := none
+  details : Option Details := none
+  ok : Bool := true
+  deriving Repr, DecidableEq
+
+/-- merge semantics of `NebulaMetaDetails.Unmarshal`: scalar fields present on the wire overwrite (proto3 does
+not put zero scalars on the wire), the nested `VpnAddr` is allocated if nil and overwritten, repeated fields
+are appended. -/
+def mergeDetails (into d : Details) : Details :=
+  { oldVpn := if d.oldVpn != 0 then d.oldVpn else into.oldVpn,
+    vpn := match d.vpn with | some a => some a | none => into.vpn,
+    v4 := into.v4 ++ d.v4, v6 := into.v6 ++ d.v6,
+    oldRelays := into.oldRelays ++ d.oldRelays, relays := into.relays ++ d.relays }
+
+/-- the handler: the lighthouse cache plus the scratch `NebulaMeta` (`Type` and the reused `Details`). -/
+structure HState where
+  lh : LH := {}
+  scratchTyp : Nat := 0
+  scratch : Details := {}
+
+/-- `resetMeta`: `meta.Reset()`, every slice cut to length 0, `OldVpnAddr = 0`, `VpnAddr = nil`. -/
+def HState.resetMeta (h : HState) : HState := { h with scratchTyp := 0, scratch := {} }
+
+/-- `n.Unmarshal(p)` into the scratch. -/
+def unmarshalInto (t0 : Nat) (d0 : Details) (p : Packet) : Nat × Details :=
+  (p.typ.getD t0, match p.details with | some d => mergeDetails d0 d | none => d0)
+
+/-- what the scratch holds when `HandleRequest` returns after a decodable packet: the last message the
+handlers built in it (`resetMeta` + reply / punch notification / ack), else the decoded message. -/
+def scratchAfter (c : Cfg) (from_ : List Addr) (t : Nat) (d : Details) (o : Outp) : Nat × Details :=
+  if t == typHostUpdateNotification && updateAccepted c from_ d then
+    let f0 := from_.headD ⟨.v4, 0⟩
+    (typHostUpdateNotificationAck, if (updDetailsVpn d).2 == 1 && f0.is4 then { oldVpn := f0.val } else {})
+  else match o.sent.getLast? with
+    | some s => (s.msg.typ, s.msg.details.getD {})
+    | none => (t, d)
+
+/-- `LightHouseHandler.HandleRequest(rAddr, fromVpnAddrs, p, w)` on the bytes of a packet:
+`n := lhh.resetMeta(); err := n.Unmarshal(p); if err != nil { return }; …dispatch…`. -/
+def handlePacket (c : Cfg) (h : HState) (from_ : List Addr) (p : Packet) : HState × Outp :=
+  let h0 := h.resetMeta
+  let td := unmarshalInto h0.scratchTyp h0.scratch p
+  if !p.ok then ({ h0 with scratchTyp := td.1, scratch := td.2 }, {})
+  else
+    let r := handleRequest c h0.lh from_ { typ := td.1, details := some td.2 }
+    let sa := scratchAfter c from_ td.1 td.2 r.2
+    ({ lh := r.1, scratchTyp := sa.1, scratch := sa.2 }, r.2)
+
+/-- the message a packet carries on its own. -/
+def Packet.msg (p : Packet) : Msg := { typ := p.typ.getD 0, details := some (p.details.getD {}) }
+
+/-- a history of packets through one handler. -/
+def runPackets (c : Cfg) (h : HState) : List (List Addr × Packet) → HState
+  | [] => h
+  | (f, p) :: rest => runPackets c (handlePacket c h f p).1 rest
+
 end Nebula.Lighthouse
